@@ -102,6 +102,9 @@ pub fn gen_seed(rng: &mut Rng, allow_uninit: bool) -> Seed {
             Seed::Literal {
                 bytes: if rng.chance(1, 8) {
                     vec![0; n]
+                } else if rng.chance(1, 4) {
+                    // literal content that looks like seed configs itself (kind bytes 0..4, small operands)
+                    (0..n).map(|_| rng.below(5) as u8).collect()
                 } else {
                     rng.bytes(n)
                 },
@@ -149,7 +152,7 @@ fn gen_list_total(rng: &mut Rng, target: usize) -> Vec<Seed> {
                     rng.below((rem - 1) as u64) as usize
                 };
                 Seed::Literal {
-                    bytes: rng.bytes(n.min(rem - 2)),
+                    bytes: if rng.chance(1, 4) { (0..n.min(rem - 2)).map(|_| rng.below(5) as u8).collect() } else { rng.bytes(n.min(rem - 2)) },
                 }
             }
         };
